@@ -30,7 +30,7 @@ from .front import AnalysisError, ClassInfo, FuncInfo, ModuleInfo, Repo
 from .term import C, Term, attr, index, mk_op, subterms, tstr
 
 MAX_INLINE_DEPTH = 4
-MAX_CONFIGS = 256
+MAX_CONFIGS = 1024
 
 LOG_NAMES = {
     "debug",
